@@ -16,7 +16,7 @@ FORM = ('E (exact integer runs): MPS/MPO tensors with Gaussian-integer entries (
         'two-site / bond application is compared entry by entry and shape by shape')
 RULE = ('L in 1..5, d in 1..3, bond dimensions 1..3 drawn independently for ket, bra, operator and density MPO (forced bond '
         'dimension 1 in a fixed share of the cases), quantum-number sectors off (all zero) or on (charges drawn along reachable '
-        'paths so that blocks are non-empty, sometimes disjoint), dtypes float64 / complex128 / int64, Hermitian MPOs O + O^dagger '
+        'paths so that blocks are non-empty, sometimes disjoint), dtypes float64 / complex128 / int64 and mixed (real ket with complex bra and vice versa, real or complex operators), Hermitian MPOs O + O^dagger '
         'in a fixed share; plus L = 0 and site-count mismatch edge cases. Every site i for the one-site, every pair (i,i+1) for the '
         'two-site (merged MPS tensors via merge_mps_tensor_pair and random tensors; merged MPO tensors via merge_mpo_tensor_pair) and '
         'every bond 0..L for the zero-site problem. non-trivial = L >= 2, some bond dimension >= 2 and a non-zero <chi|O|psi>; '
@@ -59,7 +59,7 @@ def is_int(e):
     return 're' in e
 
 
-NPDT = {'real': np.float64, 'complex': complex, 'int': np.int64}
+NPDT = {'real': np.float64, 'complex': complex, 'int': np.int64, 'mixed': complex}
 
 
 # ----------------------------------------------------------------------------------------------
@@ -161,19 +161,30 @@ def make_case(rng, L, d, dtype, sectors, herm, force1, Dmax=3, kind='main'):
         q_op = [[0] * len(r) for r in q_op]; q_psi = [[0] * len(r) for r in q_psi]
         q_chi = [[0] * len(r) for r in q_chi]; q_rho = [[0] * len(r) for r in q_rho]
 
-    def mps_t(q):
-        return [np.where(_mps_mask(qd, q[i], q[i + 1]), _rand(nrg, (d, len(q[i]), len(q[i + 1])), cplx), 0) for i in range(L)]
+    # 'mixed': operands of different dtypes (a real ket meets a complex bra and the other way round, real/complex operators)
+    dtypes = None
+    if dtype == 'mixed':
+        kp = rng.random() < 0.5
+        dtypes = {'psi': 'complex' if kp else 'real', 'chi': 'real' if kp else 'complex',
+                  'op': rng.choice(['real', 'complex']), 'rho': rng.choice(['real', 'complex'])}
 
-    def mpo_t(q):
-        return [np.where(_mpo_mask(qd, q[i], q[i + 1]), _rand(nrg, (d, d, len(q[i]), len(q[i + 1])), cplx), 0) for i in range(L)]
+    def mps_t(q, who):
+        cx = cplx if dtypes is None else dtypes[who] == 'complex'
+        return [np.where(_mps_mask(qd, q[i], q[i + 1]), _rand(nrg, (d, len(q[i]), len(q[i + 1])), cx), 0) for i in range(L)]
 
-    psi, chi, op, rho = mps_t(q_psi), mps_t(q_chi), mpo_t(q_op), mpo_t(q_rho)
+    def mpo_t(q, who):
+        cx = cplx if dtypes is None else dtypes[who] == 'complex'
+        return [np.where(_mpo_mask(qd, q[i], q[i + 1]), _rand(nrg, (d, d, len(q[i]), len(q[i + 1])), cx), 0) for i in range(L)]
+
+    psi, chi, op, rho = mps_t(q_psi, 'psi'), mps_t(q_chi, 'chi'), mpo_t(q_op, 'op'), mpo_t(q_rho, 'rho')
+    if dtypes is not None:
+        cplx = True       # local-problem inputs X, X2, C are complex in mixed cases
     if herm and L >= 1:
         op, q_op = _herm_sum(op, q_op, d)
     X = [np.where(_mps_mask(qd, q_psi[i], q_psi[i + 1]), _rand(nrg, psi[i].shape, cplx), 0) for i in range(L)]
     X2 = [_rand(nrg, (d * d, len(q_psi[i]), len(q_psi[i + 2])), cplx) for i in range(L - 1)]
     C = [_rand(nrg, (len(q_psi[i]), len(q_psi[i])), cplx) for i in range(L + 1)]
-    return {'kind': kind, 'L': L, 'd': d, 'dtype': dtype, 'sectors': bool(sectors), 'herm': bool(herm), 'qd': qd,
+    return {'kind': kind, 'L': L, 'd': d, 'dtype': dtype, 'dtypes': dtypes, 'sectors': bool(sectors), 'herm': bool(herm), 'qd': qd,
             'qD': {'psi': q_psi, 'chi': q_chi, 'op': q_op, 'rho': q_rho},
             'T': {'psi': [enc(a) for a in psi], 'chi': [enc(a) for a in chi], 'op': [enc(a) for a in op],
                   'rho': [enc(a) for a in rho], 'X': [enc(a) for a in X], 'X2': [enc(a) for a in X2], 'C': [enc(a) for a in C]}}
@@ -184,7 +195,7 @@ def cases(rng, tier):
     # systematic grid: every (L, d), sectors on/off, rotating dtype / herm / forced bond dimension 1
     k = 0
     reps = {'quick': 1, 'thorough': 4, 'search': 1}[tier]
-    dts = ['complex', 'real', 'int']
+    dts = ['complex', 'real', 'int', 'mixed']
     for _ in range(reps):
         for L in range(1, 6):
             for d in range(1, 4):
@@ -192,7 +203,7 @@ def cases(rng, tier):
                     continue
                 for sectors in (False, True):
                     k += 1
-                    dt = dts[(k + rng.randrange(3)) % 3]
+                    dt = dts[(k + rng.randrange(4)) % 4]
                     Dmax = 3 if d ** L <= 81 else 2
                     out.append(make_case(rng, L, d, dt, sectors, herm=(k % 3 == 0), force1=(k % 5 == 0), Dmax=Dmax))
     n = {'quick': 110, 'thorough': 600, 'search': 60}[tier]
@@ -216,10 +227,12 @@ def _build(case):
     from pytenet.mpo import MPO
     dt = NPDT[case['dtype']]
     qd, qD, T = case['qd'], case['qD'], case['T']
-    psi = MPS(qd, qD['psi'], fill='postpone'); psi.A = [dec(a, dt) for a in T['psi']]
-    chi = MPS(qd, qD['chi'], fill='postpone'); chi.A = [dec(a, dt) for a in T['chi']]
-    op = MPO(qd, qD['op'], fill='postpone'); op.A = [dec(a, dt) for a in T['op']]
-    rho = MPO(qd, qD['rho'], fill='postpone'); rho.A = [dec(a, dt) for a in T['rho']]
+    dts = case.get('dtypes') or {}
+    dto = {w: NPDT[dts[w]] if w in dts else dt for w in ('psi', 'chi', 'op', 'rho')}
+    psi = MPS(qd, qD['psi'], fill='postpone'); psi.A = [dec(a, dto['psi']) for a in T['psi']]
+    chi = MPS(qd, qD['chi'], fill='postpone'); chi.A = [dec(a, dto['chi']) for a in T['chi']]
+    op = MPO(qd, qD['op'], fill='postpone'); op.A = [dec(a, dto['op']) for a in T['op']]
+    rho = MPO(qd, qD['rho'], fill='postpone'); rho.A = [dec(a, dto['rho']) for a in T['rho']]
     return psi, chi, op, rho
 
 
